@@ -34,7 +34,7 @@ ASSUMPTIONS = [
 ]
 
 MIX = {'small': 0.5, 'fusion': 0.18, 'circ': 0.2, 'altsplice': 0.12}
-ENTRY_EXC = ['ValueError', 'KeyError', 'RuntimeError', 'AssertionError', 'IndexError']
+ENTRY_EXC = ['ValueError', 'KeyError', 'RuntimeError', 'AssertionError', 'IndexError', 'TimeoutError']
 
 
 def n_cases(tier):
